@@ -383,10 +383,10 @@ def run_grid(ctx, configs, b, bs, relation, header=HEADER, digest_fn="grid_diges
     ctx.cov["traces_validated_against_impl"] += total
     ctx.cov["grid_single_operation_cases"] = ctx.cov.get("grid_single_operation_cases", 0) + total
     if bad_cases:
-        before = len(ctx.violations)
         hist.run(ctx, DRIVER, bad_cases[:6000], relation=relation + " (blocks whose digests differ)",
                  tag="gridbad", **hist_kw)
-        if len(ctx.violations) == before and not ctx.known_seen:
+        if ctx.obl and ctx.obl[-1][0].startswith("correspondence " + relation) and ctx.obl[-1][1]:
+            # the embedded re-run of the differing blocks shows no disagreement at all
             ctx.fail("harness/grid-enumeration", "grid digests differ but no embedded case disagrees",
                      dict(relation=relation), no_input=True)
     else:
